@@ -1,8 +1,8 @@
 SPECIFICATION Spec
 CONSTANTS
   Dev = {}
-  Identities <- DevIdentities
-  ExtraStarts = {4, 5, 7, 127, 130, 254}
+  Families <- DevFamilies
+  ExtraStarts = {5, 7, 130}
 INVARIANT SizeBound
 INVARIANT RspWellFormed
 INVARIANT PageBound
